@@ -16,7 +16,7 @@ import time
 
 import ufl
 import ufl.classes as C
-from ufl import (Argument, Coefficient, Constant, FacetNormal, FunctionSpace, Mesh, SpatialCoordinate, as_ufl, atan2,
+from ufl import (Argument, Coefficient, Constant, FacetNormal, FunctionSpace, Mesh, SpatialCoordinate, as_ufl, as_vector, atan2, dot,
                  conditional, exp, grad, inner, lt, sin, triangle, variable)
 from ufl.classes import Index, Indexed, Label, MultiIndex, Variable
 from ufl.core.multiindex import FixedIndex
@@ -79,6 +79,14 @@ def pool(tier):
     r4, s4 = sin(f1), sin(f2)
     P["shared_f"] = atan2(r4, s4) * exp(s4) + atan2(s4, r4)
     P["Ai0*vi"], P["Ai1*vi"] = ix(A, i, 0) * ix(v, i), ix(A, i, 1) * ix(v, i)
+    # float literals whose digit groups coincide as numbers but not as text (1.5 / 1.05, 0.1 / 0.01)
+    P["1.5*f1"], P["1.05*f1"], P["0.1*f1"], P["0.01*f1"] = 1.5 * f1, 1.05 * f1, 0.1 * f1, 0.01 * f1
+    P["f1^2.5"], P["f1^2.05"] = f1**2.5, f1**2.05
+    P["lit1.5"], P["lit1.05"], P["lit7"], P["lit07"] = as_ufl(1.5), as_ufl(1.05), as_ufl(0.7), as_ufl(0.07)
+    # operators with a varying number of operands: one operand list a proper prefix of the other
+    P["dot_l2"] = dot(as_vector([f1, f2]), as_vector([f1, f2]))
+    P["dot_l3"] = dot(as_vector([f1, f2, g3]), as_vector([f1, f2, g3]))
+    P["l2_0"], P["l3_0"] = as_vector([f1, f2])[i] * as_vector([f1, f2])[i], as_vector([f1, f2, g3])[j] * as_vector([f1, f2, g3])[j]
     if tier == "thorough":
         for n, (p, q) in enumerate(itertools.combinations(["f1", "f2", "g3", "c9", "c10", "x9_0", "sin_f1", "A01", "A10"], 2)):
             P[f"sum{n}"] = P[p] + P[q]
